@@ -30,9 +30,9 @@ DenFuel == 160
 
 NoCase == [id |-> 0, g |-> 0, w |-> <<>>, A |-> 1, M |-> 1, af |-> 0, cf |-> 1, trk |-> 0, eol |-> 3,
            ib |-> 0, il |-> 1, ic |-> 1, cls |-> 0, xt |-> 0]
-NoLast == [r |-> 0, v |-> -1, o |-> 0, mx |-> 0, lvl |-> 0, x |-> 0]
+NoLast == [r |-> 0, v |-> -1, o |-> 0, mx |-> 0, lvl |-> 0, x |-> 0, eo |-> 0]
 Cnt0   == [ev |-> 0, cases |-> 0, den |-> 0, opq |-> 0, req |-> 0, look |-> 0, pos |-> 0, hook |-> 0, act |-> 0,
-           xcs |-> 0, ends |-> 0, raise |-> 0, fuel |-> 0]
+           xcs |-> 0, ends |-> 0, raise |-> 0, fuel |-> 0, state |-> 0, sw |-> 0]
 
 CInit == /\ stk = <<>>
          /\ cs = NoCase
@@ -63,6 +63,20 @@ VisibleF(f) == Known(f.r) /\ (FullVis(f.cf) \/ Nodes[f.r].en = 1)
 Min2(a, b) == IF a <= b THEN a ELSE b
 FrameLim(f) == IF Known(f.r) /\ f.af = 4 THEN Nodes[f.r].lim \div 1000 ELSE 0
 FrameLimN(f) == Nodes[f.r].lim % 1000
+
+\* switches (C13): what an invocation prescribes for its sub-rules
+FrameSw(f) == IF Known(f.r) /\ f.af = 5 THEN Nodes[f.r].sw ELSE 0
+ExpA(f) == LET op == OpOf(f.r) sw == FrameSw(f) IN
+           IF op \in {"at", "not_at", "disable"} \/ sw = 8 THEN 0 ELSE IF op = "enable" \/ sw = 7 THEN 1 ELSE f.A
+ExpAf(f) == IF OpOf(f.r) = "action" THEN Nodes[f.r].p[1] ELSE IF FrameSw(f) \in {3, 4, 5} THEN 1 ELSE f.af
+ExpCf(f) == IF OpOf(f.r) = "control" THEN Nodes[f.r].p[1] ELSE IF FrameSw(f) = 6 THEN 2 ELSE f.cf
+ExpS(f) == IF f.sid > 0 THEN f.sid ELSE f.s
+\* change_action* re-enter Control< Rule >::match for the same rule with the new action family: that second
+\* invocation is not yet inside the rule's body, so the rule's own operator (at, disable, ...) does not apply to it
+Reentry(ev) == stk # <<>> /\ ev.r = Top.r /\ FrameSw(Top) \in {3, 4, 5} /\ Top.kids = 0
+ExpChild(ev) == IF Reentry(ev) THEN <<Top.A, 1, Top.cf>> ELSE <<ExpA(Top), ExpAf(Top), ExpCf(Top)>>
+\* 1: the state rule, 2: an action-based state switch, 0: no state scope
+ScopeKind(f) == IF OpOf(f.r) = "state" THEN 1 ELSE IF FrameSw(f) \in {1, 2, 4, 5} THEN 2 ELSE 0
 GuardedOpen == Cardinality({j \in 1..Len(stk) : FrameLim(stk[j]) = 1 /\ VisibleF(stk[j])})
 
 \* st: the operators of the open invocations, outermost first (the call site of the verdict)
@@ -99,10 +113,18 @@ OnCase(ev, idx) ==
 
 (* en: a rule is asked to match *)
 OnEnter(ev, idx) ==
-   /\ stk' = Append(stk, [r |-> ev.r, A |-> ev.A, M |-> ev.M, b |-> ev.b, l |-> ev.l, c |-> ev.c, o |-> ev.o,
-                          e |-> ev.e, mx |-> ev.o, ph |-> 0, na |-> 0, ni |-> 0, iv |-> -1, av |-> -1, af |-> ev.af, cf |-> ev.cf,
+   /\ stk' = Append(IF stk = <<>> THEN stk
+                    ELSE [stk EXCEPT ![Len(stk)] = [Top EXCEPT !.kids = Top.kids + 1,
+                                                               !.dlg = IF Top.r = ev.r /\ Top.ph = 0 /\ Top.kids = 0 THEN 1 ELSE Top.dlg]], [r |-> ev.r, A |-> ev.A, M |-> ev.M, b |-> ev.b, l |-> ev.l, c |-> ev.c, o |-> ev.o,
+                          e |-> ev.e, mx |-> ev.o, ph |-> 0, na |-> 0, ni |-> 0, iv |-> -1, av |-> -1, sid |-> 0, sst |-> 0, sss |-> 0, kids |-> 0, dlg |-> 0, af |-> ev.af, cf |-> ev.cf,
                           d |-> ev.d, s |-> ev.s])
    /\ verd' = VCap(verd \o PosV(ev, idx, ev.r) \o BoundV(ev, idx, ev.r)
+        \* C13: apply mode, action family, control and innermost state of a sub-rule are what the enclosing rule prescribes
+        \o If(stk # <<>> /\ OpOf(Top.r) # "opaque" /\ <<ev.A, ev.af, ev.cf>> # ExpChild(ev),
+              V("C13", idx, ev.r, "apply mode / action family / control of a sub-rule is not what the enclosing switches prescribe",
+                <<ev.A, ev.af, ev.cf>>, ExpChild(ev)))
+        \o If(stk # <<>> /\ OpOf(Top.r) # "opaque" /\ ev.s # ExpS(Top) /\ (Top.sid > 0 \/ Top.s > 0 \/ ScopeKind(Top) > 0),
+              V("C13", idx, ev.r, "sub-rule does not receive the innermost live state", ev.s, ExpS(Top)))
         \* C18: the depth counter is the number of open depth-guarded invocations
         \o If(ev.d >= 0 /\ ev.d # GuardedOpen, V("C18", idx, ev.r, "depth counter differs from the number of open guarded rules", ev.d, GuardedOpen))
         \* C18: a byte-limited rule (and everything it calls) sees at most N bytes from where its match started
@@ -125,9 +147,11 @@ OnHook(ev, idx) ==
                          [] ev.k = "su" -> f.ph \in {1, 2} /\ f.av # 2
                          [] ev.k = "fa" -> f.ph \in {1, 2}
                          [] ev.k = "uw" -> f.ph \in {1, 2}
-        IN /\ stk' = [stk EXCEPT ![Len(stk)] = [f EXCEPT !.ph = HookPhase(ev.k), !.mx = Max2(f.mx, ev.o)]]
+        IN /\ stk' = [stk EXCEPT ![Len(stk)] = [f EXCEPT !.ph = HookPhase(ev.k), !.mx = Max2(f.mx, ev.o),
+                                                        !.cf = IF FrameSw(f) = 6 THEN ev.cf ELSE f.cf]]
            /\ verd' = VCap(verd
-                \o If(~VisibleF(f), V("C08", idx, ev.r, "hook fired for a rule whose control is disabled", ev.k, 0))
+                \o If(~VisibleF([f EXCEPT !.cf = IF FrameSw(f) = 6 THEN ev.cf ELSE f.cf]), V("C08", idx, ev.r, "hook fired for a rule whose control is disabled", ev.k, 0))
+                \o If(FrameSw(f) = 6 /\ ev.cf # 2, V("C13", idx, ev.r, "hooks of a rule with change_control do not go to the new control", ev.cf, 2))
                 \o If(~okphase, V("C08", idx, ev.r, "hook out of order", ev.k, f.ph))
                 \o If(ev.k = "st" /\ ev.o # f.o, V("C08", idx, ev.r, "start not at the position of the attempt", ev.o, f.o))
                 \o PosV(ev, idx, ev.r))
@@ -203,6 +227,34 @@ OnIa(ev, idx) ==
            /\ cnt' = Bump(Bump(cnt, "act"), "ev")
            /\ UNCHANGED <<cs, lastx>>
 
+(* sc ss sd: life cycle of an instrumented state object (C13) *)
+OnState(ev, idx) ==
+   IF stk = <<>>
+   THEN /\ verd' = VCap(Append(verd, V("C13", idx, 0, "state event outside any rule", ev.k, ev.sid)))
+        /\ cnt' = Bump(cnt, "ev")
+        /\ UNCHANGED <<stk, cs, lastx>>
+   ELSE LET f == Top
+            kind == ScopeKind(f)
+            defaulted == ev.k = "sc" /\ ev.os = -1
+        IN /\ stk' = [stk EXCEPT ![Len(stk)] =
+                         CASE ev.k = "sc" -> [f EXCEPT !.sid = ev.sid, !.sst = 1]
+                           [] ev.k = "ss" -> [f EXCEPT !.sss = f.sss + 1, !.sst = IF f.sst = 1 THEN 2 ELSE f.sst]
+                           [] ev.k = "sd" -> [f EXCEPT !.sst = 3]]
+           /\ verd' = VCap(verd
+                \o If(kind = 0, V("C13", idx, f.r, "state object handled by a rule that is not a state scope", ev.k, ev.sid))
+                \o If(ev.k = "sc" /\ (f.kids # 0 \/ f.sid # 0), V("C13", idx, f.r, "state not created exactly once at the start of the attached rule's attempt", f.kids, f.sid))
+                \o If(ev.k = "sc" /\ ~defaulted /\ (ev.os # f.s \/ ev.o # f.o), V("C13", idx, f.r, "state constructed with other than the outer states / the position of the attempt", <<ev.os, ev.o>>, <<f.s, f.o>>))
+                \o If(ev.k = "sc" /\ defaulted /\ FrameSw(f) \notin {2, 5}, V("C13", idx, f.r, "state default-constructed although it can be constructed from the input and outer states", 0, 0))
+                \o If(ev.k \in {"ss", "sd"} /\ ev.sid # f.sid, V("C13", idx, f.r, "state event for an object that does not belong to this scope", ev.sid, f.sid))
+                \o If(ev.k = "ss" /\ (f.sst # 1 \/ f.sss # 0), V("C13", idx, f.r, "success called twice or on a dead state", f.sst, f.sss))
+                \o If(ev.k = "ss" /\ ~(lastx.v = 1 /\ lastx.lvl = Len(stk) + 1 /\ ev.o = lastx.eo) /\ kind = 1,
+                      V("C13", idx, f.r, "success called although the rule did not just match, or not with the cursor after the match", <<ev.o, lastx.v>>, lastx.eo))
+                \o If(ev.k = "ss" /\ kind = 2 /\ f.A # 1, V("C13", idx, f.r, "action-based state switch called success while actions are disabled", 0, 0))
+                \o If(ev.k = "ss" /\ ev.os # f.s, V("C13", idx, f.r, "success not called with the outer states", ev.os, f.s))
+                \o (IF ev.k = "ss" THEN PosV(ev, idx, f.r) ELSE <<>>))
+           /\ cnt' = Bump(Bump(cnt, "state"), "ev")
+           /\ UNCHANGED <<cs, lastx>>
+
 -----------------------------------------------------------------------------
 (* comparison of an observed outcome with the denotation (C01, C09, C05, ...) *)
 XClassOf(who) == IF who > 0 \/ who \in ({D!XActParseError} \cup D!XLimits) THEN 1 ELSE IF who = D!XActForeign THEN 3 ELSE 0
@@ -214,7 +266,9 @@ DenV(f, idx, v, o, x) ==   \* v: 1 success, 0 failure, 2 exception of class x
    ELSE LET agree == CASE d.k = "T" -> v = 1 /\ o = d.e
                        [] d.k = "F" -> v = 0
                        [] d.k = "X" -> v = 2 /\ x = XClassOf(d.who)
-        IN If(~agree, V(PropOfRule(f.r), idx, f.r, "outcome differs from the denotation", <<v, o, x>>, d))
+            \* a disagreement at an invocation guarded by a limit, or about a limit's exception, is a limit matter
+            prop == IF FrameLim(f) # 0 \/ (d.k = "X" /\ d.who \in D!XLimits) THEN "C18" ELSE PropOfRule(f.r)
+        IN If(~agree, V(prop, idx, f.r, "outcome differs from the denotation", <<v, o, x>>, d))
 
 (* ex: the invocation returns *)
 OnExit(ev, idx) ==
@@ -224,12 +278,15 @@ OnExit(ev, idx) ==
         /\ UNCHANGED <<stk, cs, lastx>>
    ELSE LET f == Top
             moved == ev.o # f.o \/ ev.b # f.b \/ ev.l # f.l \/ ev.c # f.c
-            vis == VisibleF(f)
+            \* a rule whose action class re-enters Control< Rule >::match (change_action*) shows up as two nested
+            \* invocations of the same rule; hooks and actions belong to the inner one
+            vis == VisibleF(f) /\ f.dlg = 0
+            scope == ScopeKind(f)
             mx == Max2(f.mx, ev.o)
             rest == Pop
         IN /\ stk' = IF rest = <<>> THEN rest
                      ELSE LET par == rest[Len(rest)] IN [rest EXCEPT ![Len(rest)] = [par EXCEPT !.mx = Max2(par.mx, mx)]]
-           /\ lastx' = [r |-> f.r, v |-> ev.v, o |-> f.o, mx |-> mx, lvl |-> Len(stk), x |-> 0]
+           /\ lastx' = [r |-> f.r, v |-> ev.v, o |-> f.o, mx |-> mx, lvl |-> Len(stk), x |-> 0, eo |-> ev.o]
            /\ verd' = VCap(verd
                 \* C02
                 \o If(ev.v = 0 /\ f.M = 1 /\ moved,
@@ -243,6 +300,12 @@ OnExit(ev, idx) ==
                 \o If(vis /\ ev.v = 1 /\ f.ph # 3, V("C08", idx, f.r, "returned success without a success hook", f.ph, 0))
                 \o If(vis /\ ev.v = 0 /\ f.ph # 4, V("C08", idx, f.r, "returned failure without a failure hook", f.ph, 0))
                 \o If(~vis /\ f.ph # 0, V("C08", idx, f.r, "hooks fired for a disabled rule", f.ph, 0))
+                \* C13: the state exists exactly for the duration of the attempt and gets success iff the rule matched
+                \o If(scope > 0 /\ (f.sid = 0 \/ f.sst # 3), V("C13", idx, f.r, "state of the scope not created, or not destroyed before the rule returned", f.sid, f.sst))
+                \* (a user-named rule deriving from state<> may carry an action of its own: the state rule has matched, and
+                \* got its success, when that action is called -- even if the action then vetoes)
+                \o If(scope > 0 /\ ev.v = 1 /\ f.sss # (IF scope = 1 \/ f.A = 1 THEN 1 ELSE 0), V("C13", idx, f.r, "rule matched: success not called exactly once (action-based switches: only while actions are enabled)", f.sss, f.A))
+                \o If(scope > 0 /\ ev.v = 0 /\ f.sss # (IF scope = 1 /\ f.na > 0 THEN 1 ELSE 0), V("C13", idx, f.r, "success called although the rule failed", f.sss, 0))
                 \* C04
                 \o If(f.av = 2 /\ (ev.v # 0 \/ ev.o # f.o), V("C04", idx, f.r, "action returned false but the match was not turned into a failure at its start", ev.v, ev.o))
                 \o If(ev.v = 1 /\ vis /\ f.A = 1 /\ D!AKind(f.r, f.af) # 0 /\ f.na # 1,
@@ -269,13 +332,13 @@ OnExc(ev, idx) ==
         /\ cnt' = Bump(cnt, "ev")
         /\ UNCHANGED <<stk, cs, lastx>>
    ELSE LET f == Top
-            vis == VisibleF(f)
+            vis == VisibleF(f) /\ f.dlg = 0
             mx == Max2(f.mx, ev.o)
             rest == Pop
             fuel == ev.x = 4
         IN /\ stk' = IF rest = <<>> THEN rest
                      ELSE LET par == rest[Len(rest)] IN [rest EXCEPT ![Len(rest)] = [par EXCEPT !.mx = Max2(par.mx, mx)]]
-           /\ lastx' = [r |-> f.r, v |-> 2, o |-> f.o, mx |-> mx, lvl |-> Len(stk), x |-> ev.x]
+           /\ lastx' = [r |-> f.r, v |-> 2, o |-> f.o, mx |-> mx, lvl |-> Len(stk), x |-> ev.x, eo |-> ev.o]
            /\ verd' = VCap(verd
                 \* (a limit action -- limit_depth, limit_bytes, check_bytes -- raises outside the rule's own attempt: before
                 \* start, or after success; then the protocol is already balanced and no unwind is due)
@@ -284,6 +347,7 @@ OnExc(ev, idx) ==
                 \o If(~fuel /\ vis /\ ~HasUnwind(f.cf) /\ f.ph \notin {1, 2} /\ ~(FrameLim(f) # 0 /\ f.ph \in {0, 3}),
                       V("C08", idx, f.r, "exception passed through after an end hook", f.ph, 0))
                 \o If(~fuel /\ ~vis /\ f.ph # 0, V("C08", idx, f.r, "hooks fired for a disabled rule", f.ph, 0))
+                \o If(~fuel /\ ScopeKind(f) > 0 /\ f.sid > 0 /\ (f.sst # 3 \/ f.sss # (IF ScopeKind(f) = 1 /\ f.na > 0 THEN 1 ELSE 0)), V("C13", idx, f.r, "exception: state not destroyed before unwinding, or success called", f.sst, f.sss))
                 \o If(ev.e # f.e, V("C18", idx, f.r, "logical end of the input not restored", f.e, ev.e))
                 \o If(ev.d # f.d, V("C18", idx, f.r, "depth counter not restored", f.d, ev.d))
                 \o (IF fuel THEN <<>> ELSE DenV(f, idx, 2, ev.o, ev.x)))
@@ -316,7 +380,7 @@ OnEnd(ev, idx) ==
        perr == ev.v = 2 /\ ev.x = 1
    IN /\ verd' = VCap(verd
            \o If(stk # <<>>, V("C08", idx, 0, "run ended with open invocations", Len(stk), 0))
-           \o If(~skip /\ ~agree, V(PropOfRule(cs.g), idx, cs.g, "result of the run differs from the denotation", <<ev.v, ev.o, ev.x>>, d))
+           \o If(~skip /\ ~agree, V(IF d.k = "X" /\ d.who \in D!XLimits THEN "C18" ELSE PropOfRule(cs.g), idx, cs.g, "result of the run differs from the denotation", <<ev.v, ev.o, ev.x>>, d))
            \o If(~skip /\ agree /\ perr /\ d.k = "X" /\ ev.msg # MsgOf(d.who, d.m),
                  V("C05", idx, d.who, "parse_error does not name the first failing must/raise rule", ev.msg, MsgOf(d.who, d.m)))
            \o If(~skip /\ agree /\ perr /\ d.k = "X" /\ ev.nested # d.n,
@@ -347,6 +411,7 @@ Step(ev, idx) ==
      [] ev.k \in {"st", "su", "fa", "uw"} -> OnHook(ev, idx)
      [] ev.k \in {"ap", "a0"} -> OnApply(ev, idx)
      [] ev.k \in {"ia", "i0"} -> OnIa(ev, idx)
+     [] ev.k \in {"sc", "ss", "sd"} -> OnState(ev, idx)
      [] ev.k = "xc"   -> OnExc(ev, idx)
      [] ev.k = "ra"   -> OnRaise(ev, idx)
      [] ev.k = "case" -> OnCase(ev, idx)
